@@ -182,7 +182,7 @@ Section Validio.
        r_acc := rs_acc sf; r_rej := rs_rej sf; r_sts := sts'; r_log := evs ++ evs2 |}.
 
   (* cutplace.validate(cid, data, validate_until): on_error='raise'; with a limit N the rows generator is
-     advanced through itertools.islice(rows, N): N = 0 never starts it (no reset!), otherwise it is
+     advanced through itertools.islice(rows, N): N = 0 never advances it (the checks have been reset by calling rows()), otherwise it is
      suspended right after the N-th yielded row, i.e. after header + N raw rows, and a container fault
      behind that point is never seen. *)
   Definition validate_api (c : cid) (limit : option nat) (sts_in : list CS) (raws : list (list text)) (fault : bool)
@@ -190,9 +190,11 @@ Section Validio.
     match limit with
     | None => api_rows c MRaise None sts_in raws fault
     | Some O =>
+        (* rows() has been called (checks reset) but never advanced *)
         let l0 := {| l_line := 0; l_cell := 0 |} in
-        let '(sts', ce, evs2) := close c sts_in l0 in
-        {| r_outs := []; r_raised := ce; r_acc := 0; r_rej := 0; r_sts := sts'; r_log := evs2 |}
+        let '(sts', ce, evs2) := close c (resets (c_checks c)) l0 in
+        {| r_outs := []; r_raised := ce; r_acc := 0; r_rej := 0; r_sts := sts';
+           r_log := reset_events (length (c_checks c)) 0 ++ evs2 |}
     | Some n =>
         let need := c_header c + n in
         if Nat.leb need (length raws) then
